@@ -106,7 +106,20 @@ def php_expr(e, top=False):
 
 
 def php_block(b, ind):
-    return "".join(php_stmt(s, ind) for s in b)
+    out, i = "", 0
+    while i < len(b):
+        s = b[i]
+        if s[0] == "static" and len(s) > 3:
+            # ["static", x, lit, "joined"]: printed with the following static declarations as ONE statement
+            group = [s]
+            while group[-1][0] == "static" and len(group[-1]) > 3 and i + 1 < len(b) and b[i + 1][0] == "static":
+                i += 1
+                group.append(b[i])
+            out += "  " * ind + "static " + ", ".join("$%s = %s" % (g[1], php_lit(g[2])) for g in group) + ";\n"
+        else:
+            out += php_stmt(s, ind)
+        i += 1
+    return out
 
 
 def php_stmt(s, ind=0):
@@ -671,6 +684,17 @@ class Gen:
         c = r.random()
         if c < 0.06:
             return self.call_then_reread(sc)
+        if sc["infunc"] and d >= 1 and c > 0.955:
+            # a static declared right here — inside whatever construct we are in — and used only in this block
+            self.nstat = getattr(self, "nstat", 0) + 1
+            u = "u%d" % self.nstat
+            joined = r.random() < 0.3
+            out = [["static", u, r.randint(0, 3)] + (["joined"] if joined else [])]
+            if joined:
+                out.append(["static", u + "b", r.randint(0, 3)])
+                out.append(["expr", ["postinc", u + "b"]])
+                out.append(tag(self.lab(), var(u + "b")))
+            return out + [["expr", ["assign", u, ["bin", "Add", var(u), lit(r.randint(1, 2))]]], tag(self.lab(), var(u))]
         if sc["infunc"] and sc.get("params") and c < 0.12:
             # accumulate into a by-value parameter (the caller's variable / the default must not change)
             pn = r.choice(sc["params"])
@@ -1042,6 +1066,24 @@ def match_programs():
                                      ["expr", ["assign", "r", ["match", var("x"), [[[lit("2")], lit(1)], [[lit(2)], lit(2)]], lit(0), 0]]],
                                      tag("r=", var("r")),
                                      ["expr", ["assign", "s", ["match", lit("2"), [[[lit(2)], lit(1)]], lit(3), 1]]], tag(" s=", var("s"))]})
+    # arms made of plain literals only (what a parse-time jump table would be built from), the same literal in more than
+    # one arm (alone / inside a condition list): the FIRST arm wins; every subject value in range, hits and misses,
+    # with a default at the front / in the middle / at the end / absent; int, string and mixed literals; inside a loop and a function
+    L = lambda *ks: [lit(k) for k in ks]
+    tables = [[[L(0), lit(100)], [L(1, 2, 3), lit(200)], [L(3, 4), lit(300)], [L(5), lit(400)]],
+              [[L(0), lit(1)], [L(1), lit(10)], [L(2), lit(100)], [L(1), lit(1000)]],
+              [[L(2, 2), lit(7)], [L(2), lit(8)], [L(0, 2, 4), lit(9)], [L(4, 1), lit(10)]],
+              [[L("a"), lit(1)], [L("b", "a"), lit(2)], [L("c"), lit(3)], [L("b"), lit(4)]],
+              [[L(1), lit(1)], [L("1"), lit(2)], [L(1, "1"), lit(3)], [L(True), lit(4)]]]
+    for ti, arms in enumerate(tables):
+        for dflt, dpos in ((None, 0), (lit(-1), 0), (lit(-1), 2), (lit(-1), 9)):
+            subj = var("x") if ti < 3 else (["bin", "Concat", lit(""), ["idx", "ks", var("x")]] if ti == 3 else ["idx", "ks", var("x")])
+            ks = ["arr", L("a", "b", "c", "d", "e", "f", "g")] if ti == 3 else ["arr", L(1, "1", True, 0, 2, "x", 1)]
+            m = ["match", subj, arms, dflt, dpos]
+            f = {"name": "pick", "params": [["x", None], ["ks", None]], "body": [["return", m]]}
+            out.append({"funcs": [f], "main": [["expr", ["assign", "ks", ks]],
+                                               ["for", [["assign", "x", lit(0)]], ["bin", "Le", var("x"), lit(6)], [["postinc", "x"]],
+                                                [tag(" ", m), tag("/", ["call", "pick", [var("x"), var("ks")]])]]]})
     return out
 
 
@@ -1080,6 +1122,100 @@ def closure_programs():
     out.append(dict(base, main=[["expr", ["assign", "x", lit(2)]], ["expr", ["assign", "f", ["closure", 1]]],
                                 ["expr", ["assign", "w", ["closure", 5]]], ["expr", ["assign", "f", lit(0)]],
                                 tag("w=", call("w", lit(5)))]))
+    return out
+
+
+def else_if_ladder_programs():
+    """if statements whose else block is EXACTLY one if statement (what a parser may flatten into the elseif chain),
+    nested 1-4 deep, every level with 0, 1 or 2 elseif branches and with / without a final else; conditions are
+    `$x == id` with distinct ids and the program runs the ladder for EVERY x (one per condition, plus one that takes
+    no branch), so every branch of every shape is taken once — enumerated, not sampled.  Control: an else block
+    with a second statement after the nested if."""
+    out = []
+    def shapes(depth):
+        for nel in (0, 1, 2):
+            yield (nel, "none")
+            yield (nel, "plain")
+            if depth > 1:
+                for sub in shapes(depth - 1):
+                    yield (nel, sub)
+    def build(shape, ctr):
+        nel, els = shape
+        ctr[0] += 1
+        me = ctr[0]
+        then = [echo_("T%d" % me)]
+        elifs = []
+        for _ in range(nel):
+            ctr[0] += 1
+            elifs.append([["bin", "Eq", var("x"), lit(ctr[0])], [echo_("E%d" % ctr[0])]])
+        if els == "none":
+            e = []
+        elif els == "plain":
+            e = [echo_("L%d" % me)]
+        else:
+            e = [build(els, ctr)]
+        return ["if", ["bin", "Eq", var("x"), lit(me)], then, elifs, e]
+    for i, sh in enumerate(shapes(4)):
+        ctr = [0]
+        ladder = build(sh, ctr)
+        body = [ladder, echo_("|")]
+        if i % 5 == 0:
+            # the same ladder inside a function, branches returning
+            f = {"name": "lad", "params": [["x", None]], "body": [ladder, ["return", var("x")]]}
+            out.append({"funcs": [f], "main": [["for", [["assign", "x", lit(0)]], ["bin", "Le", var("x"), lit(ctr[0] + 1)], [["postinc", "x"]],
+                                                [tag(";", ["call", "lad", [var("x")]])]]]})
+        else:
+            out.append({"funcs": [], "main": [["for", [["assign", "x", lit(0)]], ["bin", "Le", var("x"), lit(ctr[0] + 1)], [["postinc", "x"]], body]]})
+    # control: the else block holds the nested if AND another statement (must not be flattened)
+    for sh in [(0, (1, "plain")), (1, (2, (1, "none"))), (0, (0, (0, (1, "plain"))))]:
+        ctr = [0]
+        ladder = build(sh, ctr)
+        ladder[4] = ladder[4] + [echo_("+after")]
+        out.append({"funcs": [], "main": [["for", [["assign", "x", lit(0)]], ["bin", "Le", var("x"), lit(ctr[0] + 1)], [["postinc", "x"]], [ladder, echo_("|")]]]})
+    return out
+
+
+def static_position_programs():
+    """a `static` declaration in EVERY statement position of a function body, and nowhere else in that function: the body
+    of if / elseif / else, of each loop kind, of a switch clause (matched, fallen into, default), of try / catch /
+    finally, two levels deep, and as one multi-variable statement; the function is called several times and
+    recursively, the cell must survive both (a parse-time scan for `static` that misses a position would drop the
+    function's static store)."""
+    out = []
+    n, st = var("n"), var("s")
+    use = lambda: [["expr", ["assign", "s", ["bin", "Add", st, lit(3)]]], tag(" s", st)]
+    decl = lambda: [["static", "s", 5]]
+    d = lambda: decl() + use()
+    positions = {
+        "if-then": [["if", ["bin", "Ge", n, lit(0)], d(), [], []]],
+        "elseif": [["if", ["bin", "Lt", n, lit(0)], [echo_("neg")], [[["bin", "Ge", n, lit(0)], d()]], []]],
+        "else": [["if", ["bin", "Lt", n, lit(0)], [echo_("neg")], [], d()]],
+        "else-if-ladder": [["if", ["bin", "Lt", n, lit(0)], [echo_("neg")], [], [["if", ["bin", "Gt", n, lit(50)], [echo_("big")], [], d()]]]],
+        "while": [["expr", ["assign", "i", lit(0)]], ["while", ["bin", "Lt", var("i"), lit(2)], d() + [["expr", ["postinc", "i"]]]]],
+        "dowhile": [["expr", ["assign", "i", lit(0)]], ["dowhile", d() + [["expr", ["postinc", "i"]]], ["bin", "Lt", var("i"), lit(2)]]],
+        "for": [["for", [["assign", "i", lit(0)]], ["bin", "Lt", var("i"), lit(2)], [["postinc", "i"]], d()]],
+        "foreach": [["foreach", ["arr", [lit(1), lit(2)]], None, "v", d()]],
+        "switch-case": [["switch", lit(1), [["case", lit(1), d() + [["break", 1]]], ["default", [echo_("dflt")]]]]],
+        "switch-fallen": [["switch", lit(1), [["case", lit(1), [echo_(" c1")]], ["case", lit(2), d() + [["break", 1]]], ["default", [echo_("dflt")]]]]],
+        "switch-default": [["switch", lit(9), [["case", lit(1), [echo_("c1")]], ["default", d()]]]],
+        "switch-decl-only": [["switch", lit(9), [["default", decl()]]]] + use(),
+        "try": [["try", d(), [], [echo_(" f")]]],
+        "finally": [["try", [echo_(" t")], [], d()]],
+        "try-decl-finally-use": [["try", decl(), [], use()]],
+        "loop-in-switch": [["switch", lit(2), [["case", lit(2), [["for", [["assign", "i", lit(0)]], ["bin", "Lt", var("i"), lit(2)], [["postinc", "i"]], d()]]]]]],
+        "try-in-loop": [["for", [["assign", "i", lit(0)]], ["bin", "Lt", var("i"), lit(2)], [["postinc", "i"]], [["try", d(), [], []]]]],
+        "multi": [["static", "a", 1, "joined"], ["static", "s", 5, "joined"], ["static", "b", 2]] + use() +
+                 [["expr", ["assign", "a", ["bin", "Mul", var("a"), lit(2)]]], ["expr", ["postinc", "b"]], tag(" a", var("a")), tag(" b", var("b"))],
+        "multi-in-switch": [["switch", lit(1), [["case", lit(1), [["static", "a", 1, "joined"], ["static", "s", 5]] + use() +
+                                                 [["expr", ["postinc", "a"]], tag(" a", var("a"))]]]]],
+        "top": d(),
+    }
+    for name, body in positions.items():
+        f = {"name": "c", "params": [["n", None]],
+             "body": [tag(" [", n)] + body + [["if", ["bin", "Gt", n, lit(0)], [["expr", ["assign", "r", ["call", "c", [["bin", "Sub", n, lit(1)]]]]], tag(" r", var("r"))], [], []],
+                      ["return", n]]}
+        out.append({"funcs": [f], "main": [tag("A", ["call", "c", [lit(0)]]), tag(" B", ["call", "c", [lit(0)]]), tag(" C", ["call", "c", [lit(2)]]),
+                                          ["for", [["assign", "k", lit(0)]], ["bin", "Lt", var("k"), lit(2)], [["postinc", "k"]], [tag(" D", ["call", "c", [lit(1)]])]]]})
     return out
 
 
@@ -2041,7 +2177,9 @@ def main(ck):
             cases.append((pr, True, None, "reentrant"))
         for pr in callarg_programs():
             cases.append((pr, True, None, "callargs"))
-        for pr in static_branch_programs():
+        for pr in else_if_ladder_programs():
+            cases.append((pr, True, None, "ladder"))
+        for pr in static_branch_programs() + static_position_programs():
             cases.append((pr, True, None, "staticbranch"))
         for pr in index_programs():
             cases.append((pr, True, None, "index"))
@@ -2169,7 +2307,7 @@ def main(ck):
     ck.cov["max_loop_nesting"] = max([nesting_of(c[0], LOOPS) for c in cases] + [0])
     ck.cov["program_size_median"] = sizes[len(sizes) // 2] if sizes else 0
     ck.cov["program_size_max"] = sizes[-1] if sizes else 0
-    ck.cov["families"] = {f: sum(1 for c in cases if c[3] == f) for f in ("nest2", "alias", "escape", "recursion", "paramalias", "match", "closure", "callargs", "namedargs", "reentrant", "staticbranch", "index", "fallthrough", "random", "dirty", "replay")}
+    ck.cov["families"] = {f: sum(1 for c in cases if c[3] == f) for f in ("nest2", "alias", "escape", "recursion", "paramalias", "match", "closure", "callargs", "namedargs", "reentrant", "ladder", "staticbranch", "index", "fallthrough", "random", "dirty", "replay")}
     ck.cov["impl_outcomes"] = outcome_hist
     ck.samples = [srcs[len(srcs) // 2], srcs[-1]] if srcs else []
     ck.finish(level="proof", evaluations=len(cases), distinct_nontrivial=nontriv,
